@@ -192,12 +192,23 @@ static std::string finding_class(const Cfg& c) {
   std::string t;
   // (the classes of the repaired findings F84 Deatanhe guard, F85 DDatanhee2 selection for prolate ellipsoids, F86 Newton cycle in
   // Albers Init, F88 five Newton iterations in tauf/tphif are gone: a regression alarms)
+  // F94 (open): the stopping tolerance of Math::tauf is relative to |taup|; on a prolate ellipsoid |taup|/|tau| reaches exp(e atan e)
+  // (164 at f = -3, 4000 at f = -5), the Newton loop then stops with a step of up to 1.5e-8 exp(e atan e) |tau| and the quadratic
+  // remainder (1e-12 relative at f = -5) is returned.  The class: the projections that invert the conformal latitude, f <= -3
+  if (c.cls != 2 && c.f <= -3) t += " [class:tauf-prolate-stop-rule]";
   // F89 (open):
   // LCC: Snyder's t0^n is kept as _t0nm1 = t0^n - 1 and recovered as _t0nm1 + 1 with an absolute error of one ulp of 1, i.e. the
   // radius rho0 = (scale/n) t0^n with an absolute error eps * scale/n, scale = a k1 n F.  The class: that error alone exceeds the
   // documented budget, n F eps a >= 4 kappa 10 nm (a/a_WGS84), i.e. n F >= 28 kappa (only strongly prolate ellipsoids, where the
   // isometric latitude gains |e| atan|e| and F grows like its exponential)
-  if (c.cls == 1 && c.f < 0) { Cfg c0 = c; c0.ss = 0; c11::Proj P = oracle(c0); if (!P.polar && !P.cyl && c11::fin(P.F) && c11::dbl(fabsq(P.n * P.F)) >= 28 * kappa(c.f)) t += " [class:lcc-prolate-t0nm1]"; }
+  // (a polar cone: t0^n = 0, n = 1, F = 2/sqrt((1+e)^(1+e) (1-e)^(1-e)); there Reverse forms tnm1 + 1 with the same absolute error)
+  if (c.cls == 1 && c.f < 0) { Cfg c0 = c; c0.ss = 0; c11::Proj P = oracle(c0);
+    if (P.polar ? c11::dbl(2 / P.E.cps()) >= 28 * kappa(c.f) : (!P.cyl && c11::fin(P.F) && c11::dbl(fabsq(P.n * P.F)) >= 28 * kappa(c.f))) t += " [class:lcc-prolate-t0nm1]";
+    // F95 (open): Reverse in the branch 2n <= 1 updates tan(chi) by Dsinh(psi, psi0), whose cosh((psi + psi0)/2) = sqrt((sinh sinh + cosh cosh + 1)/2)
+    // cancels when psi psi0 < 0: exp(2 min(|psi|, |psi0|))/2 ulp are lost.  With 2n <= 1 (origin below 30 degrees) |psi0| <= 0.55 on
+    // terrestrial ellipsoids, but the isometric latitude of a prolate one gains e atan(e sin phi).  The class: LCC, f < 0, 2|n| <= 1 and
+    // exp(2 |psi0|) >= 256 kappa (the lost digits alone exceed the documented budget: eps exp(2 |psi0|)/8 >= 4 kappa 10 nm / a_WGS84)
+    if (!P.polar && !P.cyl && c11::fin(P.F) && 2 * c11::dbl(fabsq(P.n)) <= 1 && c11::dbl(expq(2 * fabsq(logq(P.E.t(P.p0))))) >= 256 * kappa(c.f)) t += " [class:lcc-prolate-dsinh]"; }
   if (c.cls == 0) return t;
   double s1, c1, s2, c2; rawsc(c, s1, c1, s2, c2); if (!(std::isfinite(s1) && std::isfinite(s2))) return t;
   { double r = std::hypot(s1, c1); s1 /= r; c1 /= r; r = std::hypot(s2, c2); s2 /= r; c2 /= r; }
@@ -211,8 +222,8 @@ static std::string finding_class(const Cfg& c) {
   if (c.f >= 0.5 || (c.f > 0.1 && std::fmin(c1, c2) < 2e-4)) t += " [class:oblate-init-accuracy]";
   return t;
 }
-// classes that make the kernel models pointless to run (Init itself is inaccurate)
-static bool init_class(const Cfg& c) { return finding_class(c).find("[class:") != std::string::npos; }
+// classes that make the kernel models pointless to run (Init itself is inaccurate): everything but the two classes that concern Reverse only
+static bool init_class(const Cfg& c) { std::string t = finding_class(c); size_t i = t.find("[class:"); while (i != std::string::npos) { if (t.compare(i, 29, "[class:tauf-prolate-stop-rule") != 0 && t.compare(i, 25, "[class:lcc-prolate-dsinh]") != 0) return true; i = t.find("[class:", i + 1); } return false; }
 static std::string& cur_tag() { static std::string t; return t; }
 static void badt(const std::string& rel, const std::string& details) { gv::bad(rel, details + cur_tag()); }
 
